@@ -49,6 +49,10 @@ struct ObsCfg {
     /// peers, per-peer order preserved) with delay injection at the table_manager hook
     /// points, while the observer keeps delivering / flushing on this thread
     concurrent: bool,
+    /// (with `concurrent`) the observing neighbour's session comes up (initial dump +
+    /// registration of its event channel, `on_established`) while source threads are in
+    /// the middle of a burst of RIB operations, on a RIB that already holds routes
+    late_join: bool,
 }
 
 const LOCAL_ASN: u32 = 65000;
@@ -61,7 +65,11 @@ fn obs_addr() -> IpAddr {
 }
 
 fn peer_addr(i: usize) -> IpAddr {
-    if i == 0 { obs_addr() } else { IpAddr::V4(Ipv4Addr::new(192, 0, 2, 20 + i as u8)) }
+    if i == 0 {
+        obs_addr()
+    } else {
+        IpAddr::V4(Ipv4Addr::new(192, 0, 2, 20 + i as u8))
+    }
 }
 
 fn peer_role(i: usize, cfg: &ObsCfg) -> PeerRole {
@@ -100,13 +108,25 @@ fn prefix(cfg: &ObsCfg, i: usize) -> packet::Nlri {
             mask: 48,
         })
     } else {
-        packet::Nlri::V4(bgp::Ipv4Net { addr: Ipv4Addr::new(10, i as u8, 0, 0), mask: 16 })
+        packet::Nlri::V4(bgp::Ipv4Net {
+            addr: Ipv4Addr::new(10, i as u8, 0, 0),
+            mask: 16,
+        })
     }
 }
 
 fn nexthop(cfg: &ObsCfg, i: usize) -> bgp::Nexthop {
     if cfg.v6 {
-        bgp::Nexthop::V6(Ipv6Addr::new(0x2001, 0xdb8, 0xffff, 0, 0, 0, 0, 1 + i as u16))
+        bgp::Nexthop::V6(Ipv6Addr::new(
+            0x2001,
+            0xdb8,
+            0xffff,
+            0,
+            0,
+            0,
+            0,
+            1 + i as u16,
+        ))
     } else {
         bgp::Nexthop::V4(Ipv4Addr::new(192, 0, 2, 101 + i as u8))
     }
@@ -136,10 +156,25 @@ fn attr_pool(tag_base: u32) -> Vec<Arc<Vec<packet::Attribute>>> {
     vec![
         Arc::new(vec![origin(0), as_path(&[64900]), med(tag_base)]),
         Arc::new(vec![origin(0), as_path(&[64900, 64901]), med(tag_base + 1)]),
-        Arc::new(vec![origin(0), as_path(&[64902]), lp(200), med(tag_base + 2)]),
-        Arc::new(vec![origin(1), as_path(&[64903]), comm(&[0xfde8_0001]), med(tag_base + 3)]),
+        Arc::new(vec![
+            origin(0),
+            as_path(&[64902]),
+            lp(200),
+            med(tag_base + 2),
+        ]),
+        Arc::new(vec![
+            origin(1),
+            as_path(&[64903]),
+            comm(&[0xfde8_0001]),
+            med(tag_base + 3),
+        ]),
         // NO_LLGR community: must be dropped when the LLGR period starts
-        Arc::new(vec![origin(0), as_path(&[64904]), comm(&[0xffff_0007]), med(tag_base + 4)]),
+        Arc::new(vec![
+            origin(0),
+            as_path(&[64904]),
+            comm(&[0xffff_0007]),
+            med(tag_base + 4),
+        ]),
         Arc::new(vec![origin(2), as_path(&[64900]), med(tag_base + 5)]),
     ]
 }
@@ -148,48 +183,93 @@ fn export_policies(cfg: &ObsCfg) -> Vec<Option<Arc<table::PolicyAssignment>>> {
     let mut out: Vec<Option<Arc<table::PolicyAssignment>>> = vec![None];
     let pfx = |i: usize| {
         if cfg.v6 {
-            table::PrefixConfig { ip_prefix: format!("2001:db8:{:x}::/48", i), mask_length_min: 48, mask_length_max: 48 }
+            table::PrefixConfig {
+                ip_prefix: format!("2001:db8:{:x}::/48", i),
+                mask_length_min: 48,
+                mask_length_max: 48,
+            }
         } else {
-            table::PrefixConfig { ip_prefix: format!("10.{}.0.0/16", i), mask_length_min: 16, mask_length_max: 16 }
+            table::PrefixConfig {
+                ip_prefix: format!("10.{}.0.0/16", i),
+                mask_length_min: 16,
+                mask_length_max: 16,
+            }
         }
     };
     // reject two prefixes
     {
         let mut pt = table::PolicyTable::new();
-        pt.add_defined_set(table::DefinedSetConfig::Prefix { name: "ps".into(), prefixes: vec![pfx(0), pfx(3)] }).unwrap();
+        pt.add_defined_set(table::DefinedSetConfig::Prefix {
+            name: "ps".into(),
+            prefixes: vec![pfx(0), pfx(3)],
+        })
+        .unwrap();
         pt.add_statement(
             "rej",
-            vec![table::ConditionConfig::PrefixSet("ps".into(), table::MatchOption::Any)],
+            vec![table::ConditionConfig::PrefixSet(
+                "ps".into(),
+                table::MatchOption::Any,
+            )],
             Some(table::Disposition::Reject),
             table::Actions::default(),
         )
         .unwrap();
         pt.add_policy("p", vec!["rej".into()]).unwrap();
         out.push(Some(
-            pt.build_assignment(None, "x", table::PolicyDirection::Export, table::Disposition::Accept, vec!["p".into()]).unwrap(),
+            pt.build_assignment(
+                None,
+                "x",
+                table::PolicyDirection::Export,
+                table::Disposition::Accept,
+                vec!["p".into()],
+            )
+            .unwrap(),
         ));
     }
     // set MED 777 on everything
     {
         let mut pt = table::PolicyTable::new();
         let actions = table::Actions {
-            med: Some(table::MedAction { action_type: table::MedActionType::Replace, value: 777 }),
+            med: Some(table::MedAction {
+                action_type: table::MedActionType::Replace,
+                value: 777,
+            }),
             ..Default::default()
         };
-        pt.add_statement("med", vec![], Some(table::Disposition::Accept), actions).unwrap();
+        pt.add_statement("med", vec![], Some(table::Disposition::Accept), actions)
+            .unwrap();
         pt.add_policy("p", vec!["med".into()]).unwrap();
         out.push(Some(
-            pt.build_assignment(None, "x", table::PolicyDirection::Export, table::Disposition::Accept, vec!["p".into()]).unwrap(),
+            pt.build_assignment(
+                None,
+                "x",
+                table::PolicyDirection::Export,
+                table::Disposition::Accept,
+                vec!["p".into()],
+            )
+            .unwrap(),
         ));
     }
     // reject routes whose origin attribute is EGP (attribute set 3) — policy on path content
     {
         let mut pt = table::PolicyTable::new();
-        pt.add_statement("o", vec![table::ConditionConfig::Origin(1)], Some(table::Disposition::Reject), table::Actions::default())
-            .unwrap();
+        pt.add_statement(
+            "o",
+            vec![table::ConditionConfig::Origin(1)],
+            Some(table::Disposition::Reject),
+            table::Actions::default(),
+        )
+        .unwrap();
         pt.add_policy("p", vec!["o".into()]).unwrap();
         out.push(Some(
-            pt.build_assignment(None, "x", table::PolicyDirection::Export, table::Disposition::Accept, vec!["p".into()]).unwrap(),
+            pt.build_assignment(
+                None,
+                "x",
+                table::PolicyDirection::Export,
+                table::Disposition::Accept,
+                vec!["p".into()],
+            )
+            .unwrap(),
         ));
     }
     out
@@ -199,33 +279,71 @@ fn import_policies(cfg: &ObsCfg) -> Vec<Option<Arc<table::PolicyAssignment>>> {
     let mut out: Vec<Option<Arc<table::PolicyAssignment>>> = vec![None];
     let pfx = |i: usize| {
         if cfg.v6 {
-            table::PrefixConfig { ip_prefix: format!("2001:db8:{:x}::/48", i), mask_length_min: 48, mask_length_max: 48 }
+            table::PrefixConfig {
+                ip_prefix: format!("2001:db8:{:x}::/48", i),
+                mask_length_min: 48,
+                mask_length_max: 48,
+            }
         } else {
-            table::PrefixConfig { ip_prefix: format!("10.{}.0.0/16", i), mask_length_min: 16, mask_length_max: 16 }
+            table::PrefixConfig {
+                ip_prefix: format!("10.{}.0.0/16", i),
+                mask_length_min: 16,
+                mask_length_max: 16,
+            }
         }
     };
     {
         let mut pt = table::PolicyTable::new();
-        pt.add_defined_set(table::DefinedSetConfig::Prefix { name: "ps".into(), prefixes: vec![pfx(1), pfx(2)] }).unwrap();
+        pt.add_defined_set(table::DefinedSetConfig::Prefix {
+            name: "ps".into(),
+            prefixes: vec![pfx(1), pfx(2)],
+        })
+        .unwrap();
         pt.add_statement(
             "rej",
-            vec![table::ConditionConfig::PrefixSet("ps".into(), table::MatchOption::Any)],
+            vec![table::ConditionConfig::PrefixSet(
+                "ps".into(),
+                table::MatchOption::Any,
+            )],
             Some(table::Disposition::Reject),
             table::Actions::default(),
         )
         .unwrap();
         pt.add_policy("p", vec!["rej".into()]).unwrap();
         out.push(Some(
-            pt.build_assignment(None, "i", table::PolicyDirection::Import, table::Disposition::Accept, vec!["p".into()]).unwrap(),
+            pt.build_assignment(
+                None,
+                "i",
+                table::PolicyDirection::Import,
+                table::Disposition::Accept,
+                vec!["p".into()],
+            )
+            .unwrap(),
         ));
     }
     {
         let mut pt = table::PolicyTable::new();
-        let actions = table::Actions { local_pref: Some(table::LocalPrefAction { value: 300 }), ..Default::default() };
-        pt.add_statement("lp", vec![table::ConditionConfig::Origin(2)], Some(table::Disposition::Accept), actions).unwrap();
+        let actions = table::Actions {
+            local_pref: Some(table::LocalPrefAction { value: 300 }),
+            ..Default::default()
+        };
+        pt.add_statement(
+            "lp",
+            vec![table::ConditionConfig::Origin(2)],
+            Some(table::Disposition::Accept),
+            actions,
+        )
+        .unwrap();
         pt.add_policy("p", vec!["lp".into()]).unwrap();
         out.push(Some(
-            pt.build_assignment(None, "i", table::PolicyDirection::Import, table::Disposition::Accept, vec!["p".into()]).unwrap(),
+            pt.build_assignment(
+                None,
+                "i",
+                table::PolicyDirection::Import,
+                table::Disposition::Accept,
+                vec!["p".into()],
+            )
+            .unwrap(),
         ));
     }
     out
@@ -235,19 +353,51 @@ fn import_policies(cfg: &ObsCfg) -> Vec<Option<Arc<table::PolicyAssignment>>> {
 
 #[derive(Clone, Debug, PartialEq)]
 enum Op {
-    Announce { peer: usize, pfx: usize, pid: u32, attr: usize, nh: usize },
-    Withdraw { peer: usize, pfx: usize, pid: u32 },
-    PeerDown { peer: usize },
-    GrDown { peer: usize },
-    GrUp { peer: usize },
-    StalePurge { peer: usize },
-    LlgrMark { peer: usize },
-    LlgrPurge { peer: usize },
-    NhFlap { nh: usize, reachable: bool },
-    ExportPolicy { idx: usize },
-    ImportPolicy { idx: usize, peer: usize },
+    Announce {
+        peer: usize,
+        pfx: usize,
+        pid: u32,
+        attr: usize,
+        nh: usize,
+    },
+    Withdraw {
+        peer: usize,
+        pfx: usize,
+        pid: u32,
+    },
+    PeerDown {
+        peer: usize,
+    },
+    GrDown {
+        peer: usize,
+    },
+    GrUp {
+        peer: usize,
+    },
+    StalePurge {
+        peer: usize,
+    },
+    LlgrMark {
+        peer: usize,
+    },
+    LlgrPurge {
+        peer: usize,
+    },
+    NhFlap {
+        nh: usize,
+        reachable: bool,
+    },
+    ExportPolicy {
+        idx: usize,
+    },
+    ImportPolicy {
+        idx: usize,
+        peer: usize,
+    },
     RouteRefresh,
-    Deliver { k: usize },
+    Deliver {
+        k: usize,
+    },
     Flush,
     Check,
 }
@@ -294,9 +444,15 @@ fn gen_ops(rng: &mut Rng, cfg: &ObsCfg, n: usize) -> Vec<Op> {
         } else if k < 50 {
             let pfx = rng.usize(N_PFX);
             last_withdraw = Some(pfx);
-            Op::Withdraw { peer: pick_peer(rng), pfx, pid: if cfg.addpath { rng.below(2) as u32 } else { 0 } }
+            Op::Withdraw {
+                peer: pick_peer(rng),
+                pfx,
+                pid: if cfg.addpath { rng.below(2) as u32 } else { 0 },
+            }
         } else if k < 66 {
-            Op::Deliver { k: rng.range(1, 6) as usize }
+            Op::Deliver {
+                k: rng.range(1, 6) as usize,
+            }
         } else if k < 76 {
             Op::Flush
         } else {
@@ -304,16 +460,36 @@ fn gen_ops(rng: &mut Rng, cfg: &ObsCfg, n: usize) -> Vec<Op> {
                 0 => {
                     // id recycling: withdraw P, then announce a different prefix, no flush in between
                     match last_withdraw.take() {
-                        Some(p) => Op::Announce { peer: pick_peer(rng), pfx: (p + 1 + rng.usize(N_PFX - 1)) % N_PFX, pid: 0, attr: rng.usize(N_ATTR), nh: 0 },
-                        None => Op::Withdraw { peer: pick_peer(rng), pfx: rng.usize(N_PFX), pid: 0 },
+                        Some(p) => Op::Announce {
+                            peer: pick_peer(rng),
+                            pfx: (p + 1 + rng.usize(N_PFX - 1)) % N_PFX,
+                            pid: 0,
+                            attr: rng.usize(N_ATTR),
+                            nh: 0,
+                        },
+                        None => Op::Withdraw {
+                            peer: pick_peer(rng),
+                            pfx: rng.usize(N_PFX),
+                            pid: 0,
+                        },
                     }
                 }
                 1 => match rng.below(5) {
-                    0 => Op::GrDown { peer: pick_peer(rng) },
-                    1 => Op::GrUp { peer: pick_peer(rng) },
-                    2 => Op::StalePurge { peer: pick_peer(rng) },
-                    3 => Op::LlgrMark { peer: pick_peer(rng) },
-                    _ => Op::LlgrPurge { peer: pick_peer(rng) },
+                    0 => Op::GrDown {
+                        peer: pick_peer(rng),
+                    },
+                    1 => Op::GrUp {
+                        peer: pick_peer(rng),
+                    },
+                    2 => Op::StalePurge {
+                        peer: pick_peer(rng),
+                    },
+                    3 => Op::LlgrMark {
+                        peer: pick_peer(rng),
+                    },
+                    _ => Op::LlgrPurge {
+                        peer: pick_peer(rng),
+                    },
                 },
                 2 => {
                     if rng.bool() {
@@ -322,22 +498,43 @@ fn gen_ops(rng: &mut Rng, cfg: &ObsCfg, n: usize) -> Vec<Op> {
                         Op::RouteRefresh
                     }
                 }
-                3 => Op::NhFlap { nh: rng.usize(2), reachable: rng.bool() },
+                3 => Op::NhFlap {
+                    nh: rng.usize(2),
+                    reachable: rng.bool(),
+                },
                 4 => {
                     if rng.bool() {
-                        Op::ImportPolicy { idx: rng.usize(3), peer: pick_peer(rng) }
+                        Op::ImportPolicy {
+                            idx: rng.usize(3),
+                            peer: pick_peer(rng),
+                        }
                     } else {
-                        Op::PeerDown { peer: pick_peer(rng) }
+                        Op::PeerDown {
+                            peer: pick_peer(rng),
+                        }
                     }
                 }
                 _ => match rng.below(8) {
-                    0 => Op::PeerDown { peer: pick_peer(rng) },
-                    1 => Op::GrDown { peer: pick_peer(rng) },
-                    2 => Op::GrUp { peer: pick_peer(rng) },
-                    3 => Op::StalePurge { peer: pick_peer(rng) },
-                    4 => Op::NhFlap { nh: rng.usize(2), reachable: rng.bool() },
+                    0 => Op::PeerDown {
+                        peer: pick_peer(rng),
+                    },
+                    1 => Op::GrDown {
+                        peer: pick_peer(rng),
+                    },
+                    2 => Op::GrUp {
+                        peer: pick_peer(rng),
+                    },
+                    3 => Op::StalePurge {
+                        peer: pick_peer(rng),
+                    },
+                    4 => Op::NhFlap {
+                        nh: rng.usize(2),
+                        reachable: rng.bool(),
+                    },
                     5 => Op::ExportPolicy { idx: rng.usize(4) },
-                    6 => Op::LlgrMark { peer: pick_peer(rng) },
+                    6 => Op::LlgrMark {
+                        peer: pick_peer(rng),
+                    },
                     _ => Op::Check,
                 },
             }
@@ -368,7 +565,14 @@ struct Observer {
 }
 
 fn make_context() -> Arc<std::sync::Mutex<PeerContext>> {
-    let fsm = crate::fsm::PeerFsm::new(u32::from(Ipv4Addr::new(1, 0, 0, 1)), LOCAL_ASN, vec![], 90, 0, FnvHashMap::default());
+    let fsm = crate::fsm::PeerFsm::new(
+        u32::from(Ipv4Addr::new(1, 0, 0, 1)),
+        LOCAL_ASN,
+        vec![],
+        90,
+        0,
+        FnvHashMap::default(),
+    );
     let conn_arbiter = Arc::new(std::sync::Mutex::new(ConnArbiter::new(fsm)));
     Arc::new(std::sync::Mutex::new(PeerContext {
         conn_arbiter,
@@ -402,10 +606,21 @@ enum HarnessErr {
 }
 
 impl Observer {
-    async fn establish(cfg: &ObsCfg, tables: &TableHandle, listener: &TcpListener) -> Result<Observer, HarnessErr> {
-        let addr = listener.local_addr().map_err(|e| HarnessErr::Io(e.to_string()))?;
-        let client = crate::verif_hooks::connect_retry(addr).await.map_err(|e| HarnessErr::Io(e.to_string()))?;
-        let (server, _) = listener.accept().await.map_err(|e| HarnessErr::Io(e.to_string()))?;
+    async fn establish(
+        cfg: &ObsCfg,
+        tables: &TableHandle,
+        listener: &TcpListener,
+    ) -> Result<Observer, HarnessErr> {
+        let addr = listener
+            .local_addr()
+            .map_err(|e| HarnessErr::Io(e.to_string()))?;
+        let client = crate::verif_hooks::connect_retry(addr)
+            .await
+            .map_err(|e| HarnessErr::Io(e.to_string()))?;
+        let (server, _) = listener
+            .accept()
+            .await
+            .map_err(|e| HarnessErr::Io(e.to_string()))?;
         // thousands of short-lived connections per process: close with RST so no
         // socket lingers in TIME_WAIT and the ephemeral port range is not exhausted
         let _ = client.set_linger(Some(std::time::Duration::ZERO));
@@ -431,11 +646,21 @@ impl Observer {
             // what PeerFsm::process computes from the configured send-max
             s.effective_max.insert(family(cfg), cfg.send_max);
         }
-        s.state.remote_cap.store(Some(Arc::new(remote_caps.clone())));
-        s.state.remote_asn.store(peer_asn(cfg.role, 0), Ordering::Relaxed);
-        s.state.remote_id.store(u32::from(Ipv4Addr::new(9, 9, 9, 9)), Ordering::Relaxed);
-        let local_sa: SocketAddr = server.local_addr().map_err(|e| HarnessErr::Io(e.to_string()))?;
-        let remote_sa: SocketAddr = server.peer_addr().map_err(|e| HarnessErr::Io(e.to_string()))?;
+        s.state
+            .remote_cap
+            .store(Some(Arc::new(remote_caps.clone())));
+        s.state
+            .remote_asn
+            .store(peer_asn(cfg.role, 0), Ordering::Relaxed);
+        s.state
+            .remote_id
+            .store(u32::from(Ipv4Addr::new(9, 9, 9, 9)), Ordering::Relaxed);
+        let local_sa: SocketAddr = server
+            .local_addr()
+            .map_err(|e| HarnessErr::Io(e.to_string()))?;
+        let remote_sa: SocketAddr = server
+            .peer_addr()
+            .map_err(|e| HarnessErr::Io(e.to_string()))?;
         s.on_established(local_sa, remote_sa).await;
         Ok(Observer {
             session: s,
@@ -462,9 +687,22 @@ impl Observer {
             n += 1;
             if trace() {
                 match &ev {
-                    ToPeerEvent::NlriChange(u) => eprintln!("    deliver: NlriChange {} dest_id={} best_changed={} any_changed={} replaced={:?} paths={:?}", u.net, u.dest_id, u.best_changed, u.any_changed, u.replaced_path_id, u.current_paths.iter().map(|p| (p.source.remote_addr, p.local_path_id)).collect::<Vec<_>>()),
+                    ToPeerEvent::NlriChange(u) => eprintln!(
+                        "    deliver: NlriChange {} dest_id={} best_changed={} any_changed={} replaced={:?} paths={:?}",
+                        u.net,
+                        u.dest_id,
+                        u.best_changed,
+                        u.any_changed,
+                        u.replaced_path_id,
+                        u.current_paths
+                            .iter()
+                            .map(|p| (p.source.remote_addr, p.local_path_id))
+                            .collect::<Vec<_>>()
+                    ),
                     ToPeerEvent::SoftResetOut => eprintln!("    deliver: SoftResetOut"),
-                    ToPeerEvent::RouteRefreshFamilies(_) => eprintln!("    deliver: RouteRefreshFamilies"),
+                    ToPeerEvent::RouteRefreshFamilies(_) => {
+                        eprintln!("    deliver: RouteRefreshFamilies")
+                    }
                 }
             }
             match ev {
@@ -494,7 +732,9 @@ impl Observer {
         }
         self.session.ctrl_msgs.push(bgp::Message::Keepalive);
         if !self.session.flush_tx(&mut self.server).await {
-            return Err(HarnessErr::Io("flush_tx (sentinel) reported a write error".into()));
+            return Err(HarnessErr::Io(
+                "flush_tx (sentinel) reported a write error".into(),
+            ));
         }
         let deadline = std::time::Instant::now() + std::time::Duration::from_secs(20);
         loop {
@@ -509,16 +749,29 @@ impl Observer {
                         self.fold(parsed)?;
                     }
                     Ok(None) => break,
-                    Err(n) => return Err(HarnessErr::Decode(format!("peer-side codec rejected a frame: {:?}", n))),
+                    Err(n) => {
+                        return Err(HarnessErr::Decode(format!(
+                            "peer-side codec rejected a frame: {:?}",
+                            n
+                        )));
+                    }
                 }
             }
             if std::time::Instant::now() > deadline {
-                return Err(HarnessErr::Watchdog("sentinel KEEPALIVE not read within 20 s".into()));
+                return Err(HarnessErr::Watchdog(
+                    "sentinel KEEPALIVE not read within 20 s".into(),
+                ));
             }
-            match tokio::time::timeout(std::time::Duration::from_secs(20), self.client.readable()).await {
+            match tokio::time::timeout(std::time::Duration::from_secs(20), self.client.readable())
+                .await
+            {
                 Ok(Ok(())) => {}
                 Ok(Err(e)) => return Err(HarnessErr::Io(e.to_string())),
-                Err(_) => return Err(HarnessErr::Watchdog("client socket not readable within 20 s".into())),
+                Err(_) => {
+                    return Err(HarnessErr::Watchdog(
+                        "client socket not readable within 20 s".into(),
+                    ));
+                }
             }
             match self.client.try_read_buf(&mut self.rxbuf) {
                 Ok(0) => return Err(HarnessErr::Io("EOF on the client end".into())),
@@ -535,25 +788,56 @@ impl Observer {
                 self.attr_errors += 1;
             }
         }
-        let msgs = bgp::validate_message(parsed, false)
-            .map_err(|n| HarnessErr::Decode(format!("validate_message rejected a frame: {:?}", n)))?;
+        let msgs = bgp::validate_message(parsed, false).map_err(|n| {
+            HarnessErr::Decode(format!("validate_message rejected a frame: {:?}", n))
+        })?;
         for m in msgs {
             match m {
-                bgp::Message::Update(bgp::Update::Reach { family, entries, nexthop, attr }) => {
+                bgp::Message::Update(bgp::Update::Reach {
+                    family,
+                    entries,
+                    nexthop,
+                    attr,
+                }) => {
                     if trace() {
-                        eprintln!("    wire: REACH {:?} nh={:?}", entries.iter().map(|e| format!("{} pid{}", e.nlri, e.path_id)).collect::<Vec<_>>(), nexthop);
+                        eprintln!(
+                            "    wire: REACH {:?} nh={:?}",
+                            entries
+                                .iter()
+                                .map(|e| format!("{} pid{}", e.nlri, e.path_id))
+                                .collect::<Vec<_>>(),
+                            nexthop
+                        );
                     }
-                    let v = (render_attrs(&attr), nexthop.map(|n| format!("{}", n)).unwrap_or_else(|| "-".into()));
+                    let v = (
+                        render_attrs(&attr),
+                        nexthop
+                            .map(|n| format!("{}", n))
+                            .unwrap_or_else(|| "-".into()),
+                    );
                     for e in entries {
-                        self.mirror.insert((fam_id(family), format!("{}", e.nlri), e.path_id), v.clone());
+                        self.mirror.insert(
+                            (fam_id(family), format!("{}", e.nlri), e.path_id),
+                            v.clone(),
+                        );
                     }
                 }
                 bgp::Message::Update(bgp::Update::Unreach { family, entries }) => {
                     if trace() {
-                        eprintln!("    wire: UNREACH {:?}", entries.iter().map(|e| format!("{} pid{}", e.nlri, e.path_id)).collect::<Vec<_>>());
+                        eprintln!(
+                            "    wire: UNREACH {:?}",
+                            entries
+                                .iter()
+                                .map(|e| format!("{} pid{}", e.nlri, e.path_id))
+                                .collect::<Vec<_>>()
+                        );
                     }
                     for e in entries {
-                        if self.mirror.remove(&(fam_id(family), format!("{}", e.nlri), e.path_id)).is_none() {
+                        if self
+                            .mirror
+                            .remove(&(fam_id(family), format!("{}", e.nlri), e.path_id))
+                            .is_none()
+                        {
                             self.withdraw_of_unknown += 1;
                         }
                     }
@@ -625,7 +909,12 @@ impl World {
             tables,
             cfg: cfg.clone(),
             peers: (0..N_PEERS)
-                .map(|i| std::sync::Mutex::new(PeerSlot { src: World::new_source(cfg, i), st: PeerSt::Up }))
+                .map(|i| {
+                    std::sync::Mutex::new(PeerSlot {
+                        src: World::new_source(cfg, i),
+                        st: PeerSt::Up,
+                    })
+                })
                 .collect(),
             attrs: attr_pool(1000),
             exp: export_policies(cfg),
@@ -640,7 +929,13 @@ impl World {
         let f = family(&self.cfg);
         let ts = self.ts.fetch_add(1, Ordering::Relaxed) + 1;
         match *op {
-            Op::Announce { peer, pfx, pid, attr, nh } => {
+            Op::Announce {
+                peer,
+                pfx,
+                pid,
+                attr,
+                nh,
+            } => {
                 let slot = self.peers[peer].lock().unwrap();
                 if matches!(slot.st, PeerSt::GrDown | PeerSt::Llgr) {
                     return false; // no live session
@@ -648,7 +943,10 @@ impl World {
                 self.tables.insert_route(
                     slot.src.clone(),
                     f,
-                    packet::PathNlri { path_id: pid, nlri: prefix(&self.cfg, pfx) },
+                    packet::PathNlri {
+                        path_id: pid,
+                        nlri: prefix(&self.cfg, pfx),
+                    },
                     Some(nexthop(&self.cfg, nh)),
                     self.attrs[attr].clone(),
                     None,
@@ -664,7 +962,10 @@ impl World {
                 self.tables.remove_route(
                     slot.src.clone(),
                     f,
-                    packet::PathNlri { path_id: pid, nlri: prefix(&self.cfg, pfx) },
+                    packet::PathNlri {
+                        path_id: pid,
+                        nlri: prefix(&self.cfg, pfx),
+                    },
                     None,
                     ts,
                 );
@@ -753,16 +1054,21 @@ impl World {
                 true
             }
             Op::NhFlap { nh, reachable } => {
-                self.tables.update_nexthop_validity(nexthop(&self.cfg, nh).addr(), reachable);
+                self.tables
+                    .update_nexthop_validity(nexthop(&self.cfg, nh).addr(), reachable);
                 true
             }
             Op::ExportPolicy { idx } => {
-                self.tables.export_policy.store(self.exp[idx % self.exp.len()].clone());
+                self.tables
+                    .export_policy
+                    .store(self.exp[idx % self.exp.len()].clone());
                 self.tables.soft_reset_out(obs_addr());
                 true
             }
             Op::ImportPolicy { idx, peer } => {
-                self.tables.import_policy.store(self.imp[idx % self.imp.len()].clone());
+                self.tables
+                    .import_policy
+                    .store(self.imp[idx % self.imp.len()].clone());
                 self.tables.soft_reset_in(peer_addr(peer));
                 true
             }
@@ -791,6 +1097,8 @@ struct Outcome {
     id_reuse_pending: bool,
     bursts: u64,
     sched_hits: u64,
+    late_joins: u64,
+    late_joins_overlapped: u64,
 }
 
 fn diff(old: &BTreeMap<Key, Val>, new: &BTreeMap<Key, Val>) -> Option<(&'static str, Vec<String>)> {
@@ -799,14 +1107,23 @@ fn diff(old: &BTreeMap<Key, Val>, new: &BTreeMap<Key, Val>) -> Option<(&'static 
     let mut attrs = Vec::new();
     for (k, v) in old {
         match new.get(k) {
-            None => stale.push(format!("{} pid{} still in the neighbour's view, not in a fresh dump", k.1, k.2)),
-            Some(n) if n != v => attrs.push(format!("{} pid{}: view has {:?}, fresh dump has {:?}", k.1, k.2, v, n)),
+            None => stale.push(format!(
+                "{} pid{} still in the neighbour's view, not in a fresh dump",
+                k.1, k.2
+            )),
+            Some(n) if n != v => attrs.push(format!(
+                "{} pid{}: view has {:?}, fresh dump has {:?}",
+                k.1, k.2, v, n
+            )),
             _ => {}
         }
     }
     for k in new.keys() {
         if !old.contains_key(k) {
-            missing.push(format!("{} pid{} in a fresh dump, missing from the neighbour's view", k.1, k.2));
+            missing.push(format!(
+                "{} pid{} in a fresh dump, missing from the neighbour's view",
+                k.1, k.2
+            ));
         }
     }
     if !stale.is_empty() {
@@ -848,8 +1165,67 @@ async fn run_history_inner(cfg: &ObsCfg, ops: &[Op], listener: &TcpListener) -> 
         id_reuse_pending: false,
         bursts: 0,
         sched_hits: 0,
+        late_joins: 0,
+        late_joins_overlapped: 0,
     };
     let world = Arc::new(World::new(cfg));
+    let is_rib_op = |o: &Op| {
+        !matches!(
+            o,
+            Op::Deliver { .. } | Op::Flush | Op::Check | Op::RouteRefresh
+        )
+    };
+    let mut skip_until = 0usize;
+    let mut join_threads = Vec::new();
+    if cfg.concurrent && cfg.late_join {
+        // the RIB-side operations among the first 30: the first half populates the RIB,
+        // the second half is issued from source threads while the session comes up
+        let head: Vec<Op> = ops
+            .iter()
+            .take(30)
+            .filter(|o| is_rib_op(o))
+            .cloned()
+            .collect();
+        skip_until = ops.len().min(30);
+        let (pre, during) = head.split_at(head.len() / 2);
+        for o in pre {
+            if world.apply(o) {
+                *out.applied.entry(o.kind()).or_insert(0) += 1;
+            }
+        }
+        let mut groups: Vec<Vec<Op>> = vec![Vec::new(), Vec::new(), Vec::new()];
+        for o in during {
+            let g = match o {
+                Op::Announce { peer, .. }
+                | Op::Withdraw { peer, .. }
+                | Op::PeerDown { peer }
+                | Op::GrDown { peer }
+                | Op::GrUp { peer }
+                | Op::StalePurge { peer }
+                | Op::LlgrMark { peer }
+                | Op::LlgrPurge { peer } => peer % 3,
+                _ => 0,
+            };
+            groups[g].push(o.clone());
+        }
+        for (g, gops) in groups.into_iter().enumerate() {
+            if gops.is_empty() {
+                continue;
+            }
+            let w = world.clone();
+            join_threads.push(std::thread::spawn(move || {
+                crate::verif_hooks::set_thread_id(1 + g as u32);
+                let mut applied: Vec<&'static str> = Vec::new();
+                for o in &gops {
+                    if w.apply(o) {
+                        applied.push(o.kind());
+                    }
+                }
+                applied
+            }));
+        }
+        out.late_joins += 1;
+    }
     let mut obs = match Observer::establish(cfg, &world.tables, listener).await {
         Ok(o) => o,
         Err(e) => {
@@ -857,14 +1233,28 @@ async fn run_history_inner(cfg: &ObsCfg, ops: &[Op], listener: &TcpListener) -> 
             return out;
         }
     };
+    if join_threads.iter().any(|h| !h.is_finished()) {
+        out.late_joins_overlapped += 1;
+    }
+    for h in join_threads {
+        match h.join() {
+            Ok(applied) => {
+                for k in applied {
+                    *out.applied.entry(k).or_insert(0) += 1;
+                }
+            }
+            Err(_) => out.harness_err = Some("source thread panicked".into()),
+        }
+    }
+    if out.harness_err.is_some() {
+        return out;
+    }
     if let Err(e) = obs.quiesce().await {
         out.harness_err = Some(format!("{:?}", e));
         return out;
     }
     let mut epoch_start = 0usize;
     let mut withdrawn_unflushed = false;
-    let is_rib_op = |o: &Op| !matches!(o, Op::Deliver { .. } | Op::Flush | Op::Check | Op::RouteRefresh);
-    let mut skip_until = 0usize;
     for (i, op) in ops.iter().enumerate() {
         if i < skip_until {
             continue;
@@ -972,7 +1362,11 @@ async fn run_history_inner(cfg: &ObsCfg, ops: &[Op], listener: &TcpListener) -> 
                                     out.frames += obs.frames;
                                     out.attr_errors += obs.attr_errors + fresh.attr_errors;
                                     if let Some((kind, detail)) = diff(&obs.mirror, &fresh.mirror) {
-                                        out.failure = Some(Failure { kind, detail, epoch_ops: i - epoch_start });
+                                        out.failure = Some(Failure {
+                                            kind,
+                                            detail,
+                                            epoch_ops: i - epoch_start,
+                                        });
                                         return out;
                                     }
                                     // the fresh session is the observer of the next epoch
@@ -1031,24 +1425,39 @@ fn ops_json(ops: &[Op]) -> Json {
 }
 
 fn gen_cfg(rng: &mut Rng) -> ObsCfg {
-    let role = *rng.pick(&[PeerRole::Ebgp, PeerRole::Ibgp, PeerRole::IbgpRrClient, PeerRole::RsClient, PeerRole::ConfedEbgp]);
+    let role = *rng.pick(&[
+        PeerRole::Ebgp,
+        PeerRole::Ibgp,
+        PeerRole::IbgpRrClient,
+        PeerRole::RsClient,
+        PeerRole::ConfedEbgp,
+    ]);
     let addpath = rng.chance(1, 2);
     ObsCfg {
         v6: rng.chance(1, 4),
         role,
         cluster_id: match role {
             PeerRole::Ibgp | PeerRole::IbgpRrClient => {
-                if rng.chance(2, 3) { Some(Ipv4Addr::new(1, 0, 0, 1)) } else { None }
+                if rng.chance(2, 3) {
+                    Some(Ipv4Addr::new(1, 0, 0, 1))
+                } else {
+                    None
+                }
             }
             _ => None,
         },
-        confed_id: if role == PeerRole::ConfedEbgp || rng.chance(1, 8) { 64512 } else { 0 },
+        confed_id: if role == PeerRole::ConfedEbgp || rng.chance(1, 8) {
+            64512
+        } else {
+            0
+        },
         addpath,
         send_max: if addpath { rng.range(1, 3) as usize } else { 0 },
         as4: rng.chance(3, 4),
         shards: *rng.pick(&[1usize, 2, 4]),
         obs_is_source: rng.chance(1, 2),
         concurrent: rng.chance(1, 4),
+        late_join: false,
     }
 }
 
@@ -1056,9 +1465,14 @@ fn gen_cfg(rng: &mut Rng) -> ObsCfg {
 fn run() {
     let params = Params::from_args_env();
     let mut rep = Report::new("C01", &params);
-    let rt = tokio::runtime::Builder::new_current_thread().enable_all().build().expect("runtime");
+    let rt = tokio::runtime::Builder::new_current_thread()
+        .enable_all()
+        .build()
+        .expect("runtime");
     let mut rng = Rng::new(params.seed ^ 0xC01);
-    let listener = match rt.block_on(crate::verif_hooks::bind_retry("127.0.0.1:0".parse().unwrap())) {
+    let listener = match rt.block_on(crate::verif_hooks::bind_retry(
+        "127.0.0.1:0".parse().unwrap(),
+    )) {
         Ok(l) => l,
         Err(e) => {
             rep.inconclusive(&format!("cannot bind a loopback listener: {}", e));
@@ -1072,9 +1486,13 @@ fn run() {
         if !rep.in_budget() {
             break;
         }
-        let cfg = gen_cfg(&mut rng);
+        let mut cfg = gen_cfg(&mut rng);
         let len = rng.range(4, if params.thorough() { 120 } else { 60 }) as usize;
         let ops = gen_ops(&mut rng, &cfg, len);
+        // half of the concurrent histories let the neighbour's session come up in the
+        // middle of a burst (decided from the history itself: the generator stream of the
+        // other histories is unchanged)
+        cfg.late_join = cfg.concurrent && fnv64(format!("{:?}", ops).as_bytes()) % 2 == 0;
         if let Some(o) = only {
             if o != hist_idx {
                 continue;
@@ -1092,13 +1510,19 @@ fn run() {
             rep.count_n(&format!("op:{}", k), *v);
         }
         rep.count(&format!("role:{:?}", cfg.role));
-        rep.count(if cfg.addpath { "branch:addpath" } else { "branch:plain" });
+        rep.count(if cfg.addpath {
+            "branch:addpath"
+        } else {
+            "branch:plain"
+        });
         rep.count(&format!("send-max:{}", cfg.send_max));
         rep.count(&format!("shards:{}", cfg.shards));
         if cfg.concurrent {
             rep.count("histories-concurrent");
             rep.count_n("concurrent-bursts", out.bursts);
             rep.count_n("sched-point-hits", out.sched_hits);
+            rep.count_n("late-joins", out.late_joins);
+            rep.count_n("late-joins-overlapping-a-burst", out.late_joins_overlapped);
         }
         if let Some(e) = &out.harness_err {
             rep.inconclusive(&format!("harness error: {}", e));
@@ -1119,9 +1543,13 @@ fn run() {
                 if o.harness_err.is_none() && o.failure.as_ref().is_some_and(|g| g.kind == f.kind) {
                     cfg = seq;
                 } else {
-                    let branch = if cfg.addpath && cfg.send_max > 1 { "addpath" } else { "plain" };
+                    let branch = if cfg.addpath && cfg.send_max > 1 {
+                        "addpath"
+                    } else {
+                        "plain"
+                    };
                     rep.violation(
-                        &format!("C01/{}/{}/concurrent-only", f.kind, branch),
+                        &format!("C01/{}/{}/concurrent-only{}", f.kind, branch, if cfg.late_join { "/session-up-during-burst" } else { "" }),
                         &format!("after quiescence the neighbour's Adj-RIB-In differs from what a brand-new session is sent ({}); only with RIB operations issued concurrently from several threads", f.kind),
                         Json::obj(vec![
                             ("config", Json::s(format!("{:?}", cfg))),
@@ -1147,7 +1575,9 @@ fn run() {
                     cand.remove(i);
                     budget -= 1;
                     let o = rt.block_on(run_history(&cfg, &cand, &listener));
-                    if o.harness_err.is_none() && o.failure.as_ref().is_some_and(|g| g.kind == f.kind) {
+                    if o.harness_err.is_none()
+                        && o.failure.as_ref().is_some_and(|g| g.kind == f.kind)
+                    {
                         cur = cand;
                     } else {
                         i += 1;
@@ -1163,13 +1593,24 @@ fn run() {
             }
             let fin = rt.block_on(run_history(&cfg, &cur, &listener));
             TRACE.store(false, std::sync::atomic::Ordering::Relaxed);
-            let detail = fin.failure.as_ref().map(|g| g.detail.clone()).unwrap_or(f.detail.clone());
-            let branch = if cfg.addpath && cfg.send_max > 1 { "addpath" } else { "plain" };
+            let detail = fin
+                .failure
+                .as_ref()
+                .map(|g| g.detail.clone())
+                .unwrap_or(f.detail.clone());
+            let branch = if cfg.addpath && cfg.send_max > 1 {
+                "addpath"
+            } else {
+                "plain"
+            };
             let mut trigger = trigger_of(&cur).to_string();
             // One precise pattern gets its own signature: an Add-Path neighbour misses a
             // prefix that was removed and re-created (same path id) while a route refresh /
             // soft reset out ran ahead of the queued removal + creation events.
-            if f.kind == "missing-route" && branch == "addpath" && (trigger == "export-policy-change" || trigger == "route-refresh") {
+            if f.kind == "missing-route"
+                && branch == "addpath"
+                && (trigger == "export-policy-change" || trigger == "route-refresh")
+            {
                 let missing: Vec<String> = detail
                     .iter()
                     .filter(|d| d.contains("missing from the neighbour's view"))
